@@ -347,7 +347,7 @@ class Gen:
             add("format_time", lambda g, sc, d: C("format_time", g("epoch"), self.lit_or_field("fmt", "fmt", sc)))
             add("extract_regex_group", lambda g, sc, d: C("extract_regex_group", g("str"), self.lit_or_field("regex", "pat", sc), g("int")))
             # subjects that do match, with groups that take part and groups that do not, every group number asked for
-            add("extract_regex_group", lambda g, sc, d: (lambda t: C("extract_regex_group", ("lit", r.choice(t[1])), ("lit", t[0]), ("lit", r.choice((0, 1, 2, 3, 4)))))(r.choice(REGEX_SUBJECTS if r.random() < 0.15 else REGEX_SUBJECTS[3:])))
+            add("extract_regex_group", lambda g, sc, d: (lambda t: C("extract_regex_group", ("lit", r.choice(t[1])), ("lit", t[0]), ("lit", r.choice((0, 1, 2, 3, 4)))))(r.choice(REGEX_SUBJECTS if (r.random() < 0.15 and getattr(self, "heavy_regex", True)) else REGEX_SUBJECTS[3:])))
         if kind in ("nas", "any", "str"):
             add('"+"', lambda g, sc, d: C(r.choice(('"+"', '"*"')), *[g("nas") for _ in range(r.choice((2, 3)))]))
             add('"-"', lambda g, sc, d: C('"-"', *[g("nas") for _ in range(r.choice((1, 2)))]))
@@ -360,7 +360,7 @@ class Gen:
             add("not", lambda g, sc, d: C("not", g("bool")))
             add("any", lambda g, sc, d: C(r.choice(("any", "all")), g("arr:bool")))
             add("match", lambda g, sc, d: C("match", g("str"), self.lit_or_field("regex", "pat", sc)))
-            add("match", lambda g, sc, d: (lambda t: C("match", ("lit", r.choice(t[1])), ("lit", t[0])))(r.choice(REGEX_SUBJECTS if r.random() < 0.15 else REGEX_SUBJECTS[3:])))
+            add("match", lambda g, sc, d: (lambda t: C("match", ("lit", r.choice(t[1])), ("lit", t[0])))(r.choice(REGEX_SUBJECTS if (r.random() < 0.15 and getattr(self, "heavy_regex", True)) else REGEX_SUBJECTS[3:])))
             add("array?", lambda g, sc, d: C(r.choice(("array?", "object?", "string?", "number?", "bool?", "null?", "empty?")), g("any")))
             add('"<"', lambda g, sc, d: C(r.choice(('"<"', '"<="', '">"', '">="', '"="', '"!="')), g("nas"), g("nas")))
         if kind.startswith("arr") or kind == "any":
